@@ -36,18 +36,125 @@ func droppedError(cs ssa.CallInstruction) bool {
 }
 
 // accepted drops: (enclosing function, callee) -> reason. One line each.
+// Only what is not covered by the two structural exceptions below
+// (best-effort cleanup on a failing path; sticky counting writer).
 type dropKey struct{ fn, callee string }
 
 var acceptedDrops = map[dropKey]string{
-	{"PersistSegmentBase$1", "(*os.File).Close"}:                       "cleanup closure: best effort on a path that already returns the original error",
-	{"PersistSegmentBase$1", "os.Remove"}:                              "cleanup closure: best effort on a path that already returns the original error",
-	{"mergeSegmentBases$1", "(*os.File).Close"}:                        "cleanup closure: best effort on a path that already returns the original error",
-	{"mergeSegmentBases$1", "os.Remove"}:                               "cleanup closure: best effort on a path that already returns the original error",
-	{"ZapPlugin.Open", "(*os.File).Close"}:                             "failure path of Open (mmap failed): the mmap error is returned",
-	{"ZapPlugin.Open", "(*Segment).Close"}:                             "failure paths of Open: the loader's error is returned",
-	{"persistFieldsSection", "encoding/binary.Write"}:                  "sticky writer: accepted only while R7b holds (bytes.Buffer never fails; bufio.Writer errors are sticky and Flush is tested)",
 	{"SegmentBase.VisitDocValues", "(*docValueReader).visitDocValues"}: "read path; not in the scope of C17/C19 (listed so that the enumeration is complete)",
 	{"Segment.loadDvReaders", "(*Segment).loadDvReader"}:               "read path; tabled difference between the two loaders (R15c)",
+}
+
+// cleanupCallees: releasing calls whose error may be dropped when the caller
+// is already failing with another error (the original error is what the
+// caller reports; C17 asks for an error and no partial file, not for this one).
+var cleanupCallees = map[string]bool{
+	"(*os.File).Close": true,
+	"os.Remove":        true,
+	"(*Segment).Close": true,
+}
+
+func forwardReach(from *ssa.BasicBlock) map[*ssa.BasicBlock]bool {
+	seen := map[*ssa.BasicBlock]bool{from: true}
+	work := []*ssa.BasicBlock{from}
+	for len(work) > 0 {
+		b := work[len(work)-1]
+		work = work[:len(work)-1]
+		for _, s := range b.Succs {
+			if !seen[s] {
+				seen[s] = true
+				work = append(work, s)
+			}
+		}
+	}
+	return seen
+}
+
+// failingContext: every way out of the enclosing function after `at` returns
+// an error that is non-nil by construction; for a helper or closure without an
+// error result, every one of its call sites is itself in such a context.
+func failingContext(p *Program, at ssa.Instruction, depth int) bool {
+	fn := at.Parent()
+	if errorResultIndex(fn.Signature) >= 0 {
+		reach := forwardReach(at.Block())
+		n := 0
+		for _, ret := range returnsOf(fn) {
+			if !reach[ret.Block()] {
+				continue
+			}
+			n++
+			if _, ns := errorOfReturn(ret); ns != nonNil {
+				return false
+			}
+		}
+		return n > 0
+	}
+	if depth >= 2 {
+		return false
+	}
+	var sites []ssa.CallInstruction
+	if par := fn.Parent(); par != nil {
+		// local closure: its direct calls in the enclosing functions
+		for _, g := range p.ZapFuncs {
+			if g != par && rootParent(g) != rootParent(fn) {
+				continue
+			}
+			for _, cs := range callSites(g) {
+				if staticCallee(cs) == fn {
+					sites = append(sites, cs)
+				}
+			}
+		}
+		// a closure that escapes (stored, passed on) has callers we do not see
+		for _, mc := range closureSites(fn) {
+			for _, r := range *mc.Referrers() {
+				switch x := r.(type) {
+				case ssa.CallInstruction:
+					if x.Common().Value != ssa.Value(mc) {
+						return false
+					}
+				case *ssa.DebugRef:
+				case *ssa.Store:
+					// the local variable holding the closure
+					if cellOf(x.Addr) == nil {
+						return false
+					}
+				default:
+					return false
+				}
+			}
+		}
+	} else {
+		sites = p.callersOf(fn)
+	}
+	if len(sites) == 0 {
+		return false
+	}
+	for _, cs := range sites {
+		if _, isDefer := cs.(*ssa.Defer); isDefer {
+			return false
+		}
+		if !failingContext(p, cs, depth+1) {
+			return false
+		}
+	}
+	return true
+}
+
+// stickyWriterDrop: an unchecked binary.Write whose destination is a
+// *CountHashWriter handed in by the caller. Accepted only while R7b holds for
+// every CountHashWriter that is constructed and passed on in package zap.
+func stickyWriterDrop(cs ssa.CallInstruction) bool {
+	f := staticCallee(cs)
+	if f == nil || f.String() != "encoding/binary.Write" {
+		return false
+	}
+	dst := cs.Common().Args[0]
+	if mi, ok := dst.(*ssa.MakeInterface); ok {
+		dst = mi.X
+	}
+	_, isParam := root(dst).(*ssa.Parameter)
+	return isParam && isNamed(dst.Type(), zapPkgPath, "CountHashWriter")
 }
 
 func ruleR7() *Rule {
@@ -74,6 +181,7 @@ func r7Drops(c *RuleCtx) {
 	counts := map[string]int{}
 	seenAccepted := map[dropKey]bool{}
 	nCalls := 0
+	nSticky := 0
 	for _, fn := range c.p.ZapFuncs {
 		for _, cs := range callSites(fn) {
 			if errorResultIndex(cs.Common().Signature()) < 0 {
@@ -124,6 +232,15 @@ func r7Drops(c *RuleCtx) {
 				c.okP(nil, key, c.pos(cs), "dropped error is a tabled, reasoned exception: "+reason)
 				continue
 			}
+			if cleanupCallees[cn] && failingContext(c.p, cs, 0) {
+				c.okP(nil, key, c.pos(cs), "best-effort cleanup: every exit after this call returns another error that is non-nil by construction")
+				continue
+			}
+			if stickyWriterDrop(cs) {
+				nSticky++
+				c.okP(nil, key, c.pos(cs), "sticky writer: accepted only while R7b holds (bytes.Buffer never fails; bufio.Writer errors are sticky and Flush is tested)")
+				continue
+			}
 			if inC17 {
 				props = append(props, "C17")
 			}
@@ -147,6 +264,7 @@ func r7Drops(c *RuleCtx) {
 			_ = reason
 		}
 	}
+	c.p.summaries["r7.nSticky"] = nSticky
 	c.check(nCalls >= 150, "enumeration", "-", "error-returning call sites of package zap are enumerated (confirmed by hand: > 150)", fmt.Sprintf("only %d error-returning call sites found", nCalls))
 }
 
@@ -241,65 +359,151 @@ func (p *Program) sectionImpls() []sectionImpl {
 // tested on every success path of the creator (R6).
 func r7bSticky(c *RuleCtx) {
 	props := []string{"C17"}
-	pfs := c.fn("persistFieldsSection")
-	if pfs == nil {
-		return
+	isCHW := func(t types.Type) bool { return isNamed(t, zapPkgPath, "CountHashWriter") }
+	isCtor := func(f *ssa.Function) bool {
+		if f == nil || !c.p.InZap(f) || f.Parent() != nil || f.Signature.Recv() != nil {
+			return false
+		}
+		res := f.Signature.Results()
+		return res.Len() == 1 && isCHW(res.At(0).Type())
 	}
-	// all constructors of CountHashWriter values
-	nsites := 0
+	// a construction: where a CountHashWriter comes into being and what it wraps
+	type construction struct {
+		fn      *ssa.Function
+		at      ssa.Instruction
+		val     ssa.Value // the *CountHashWriter
+		wrapped ssa.Value
+		name    string
+	}
+	var cons []construction
 	for _, fn := range c.p.ZapFuncs {
 		for _, cs := range callSites(fn) {
 			callee := staticCallee(cs)
-			if callee == nil || !c.p.InZap(callee) || callee.Parent() != nil {
+			if !isCtor(callee) || len(cs.Common().Args) == 0 {
 				continue
 			}
-			res := callee.Signature.Results()
-			if res.Len() != 1 || !isNamed(res.At(0).Type(), zapPkgPath, "CountHashWriter") || callee.Signature.Recv() != nil {
+			v, _ := cs.(*ssa.Call)
+			if v == nil {
 				continue
 			}
-			if len(cs.Common().Args) == 0 {
-				continue
+			cons = append(cons, construction{fn, cs, v, cs.Common().Args[0], callee.Name()})
+		}
+		// composite literals outside the constructors' own bodies
+		eachInstr(fn, func(_ *ssa.BasicBlock, in ssa.Instruction) {
+			al, ok := in.(*ssa.Alloc)
+			if !ok || !isCHW(al.Type()) {
+				return
 			}
-			// persistFooter's local wrapper never reaches persistFieldsSection
-			if namedFn(fn, "persistFooter") {
-				continue
-			}
-			nsites++
-			arg := root(cs.Common().Args[0])
-			kind := "other"
-			var witness string
-			switch a := arg.(type) {
-			case *ssa.Alloc:
-				if isNamed(a.Type(), "bytes", "Buffer") {
-					kind = "bytes.Buffer"
-				}
-			case *ssa.Call:
-				if f := a.Call.StaticCallee(); f != nil && strings.HasPrefix(f.String(), "bufio.NewWriter") {
-					kind = "bufio.Writer"
-					// Flush on this writer must exist in the creator and be tested: R6 decides
-					// "Flush tested on every success path"; here we require that R6 had a Flush role.
-					flushed := false
-					for _, cs2 := range callSites(fn) {
-						if isCallTo(cs2, "(*bufio.Writer).Flush") && sameValue(recvOrArg0(cs2), a) && !droppedError(cs2) {
-							flushed = true
+			var wrapped ssa.Value
+			for _, r := range *al.Referrers() {
+				if fa, ok := r.(*ssa.FieldAddr); ok {
+					if _, fld, _, ok := fieldOf(fa); ok && fld == "w" {
+						for _, r2 := range *fa.Referrers() {
+							if st, ok := r2.(*ssa.Store); ok && st.Addr == ssa.Value(fa) {
+								wrapped = st.Val
+							}
 						}
 					}
-					if !flushed {
-						kind = "bufio.Writer-unflushed"
-					}
 				}
-			case *ssa.Parameter:
-				kind = "parameter " + a.Name()
 			}
-			if isNamed(arg.Type(), "bytes", "Buffer") {
+			if wrapped != nil {
+				cons = append(cons, construction{fn, in, al, wrapped, "literal"})
+			}
+		})
+	}
+	// handedOn: the writer is passed to other code of package zap (where
+	// unchecked writes on it may exist); methods of CountHashWriter itself do
+	// not count, nor does the standard library
+	var handedOn func(v ssa.Value, depth int) bool
+	handedOn = func(v ssa.Value, depth int) bool {
+		if depth > 4 || v.Referrers() == nil {
+			return false
+		}
+		for _, r := range *v.Referrers() {
+			switch x := r.(type) {
+			case ssa.CallInstruction:
+				f := staticCallee(x)
+				if f != nil && c.p.InZap(f) {
+					if f.Signature.Recv() != nil && isCHW(f.Signature.Recv().Type()) && len(x.Common().Args) > 0 && x.Common().Args[0] == v {
+						continue
+					}
+					return true
+				}
+				if f == nil {
+					return true // interface / dynamic call: assume it is handed on
+				}
+			case *ssa.MakeInterface:
+				if handedOn(x, depth+1) {
+					return true
+				}
+			case *ssa.Phi:
+				if handedOn(x, depth+1) {
+					return true
+				}
+			case *ssa.Store:
+				if x.Val == v {
+					if cell := cellOf(x.Addr); cell != nil {
+						for _, r2 := range *cell.Referrers() {
+							if u, ok := r2.(*ssa.UnOp); ok && handedOn(u, depth+1) {
+								return true
+							}
+						}
+						continue
+					}
+					return true // stored into a structure
+				}
+			case *ssa.Return:
+				return true
+			}
+		}
+		return false
+	}
+	nsites := 0
+	for _, k := range cons {
+		fn := k.fn
+		arg := root(k.wrapped)
+		if prm, isParam := arg.(*ssa.Parameter); isParam && isCtor(fn) && prm.Parent() == fn {
+			continue // a constructor wrapping its own parameter: its callers are the sites
+		}
+		if !handedOn(k.val, 0) {
+			// used locally only (the footer's CRC writer): every write on it is
+			// checked by R7a in this very function
+			c.okP(props, fmt.Sprintf("sticky/%s/%s/local", funcShortName(fn), k.name), c.p.instrPos(k.at), "a CountHashWriter that is not handed on to other code of package zap: unchecked writes on it would be reported by the drop rule in this function")
+			continue
+		}
+		nsites++
+		kind := "other"
+		switch a := arg.(type) {
+		case *ssa.Alloc:
+			if isNamed(a.Type(), "bytes", "Buffer") {
 				kind = "bytes.Buffer"
 			}
-			witness = "constructor call: " + describeInstr(c.p, cs)
-			okc := kind == "bytes.Buffer" || kind == "bufio.Writer"
-			c.add(statusOf(okc), fmt.Sprintf("sticky/%s/%s", funcShortName(fn), callee.Name()), c.pos(cs),
-				"a CountHashWriter that can reach persistFieldsSection wraps a bytes.Buffer or a bufio.Writer whose Flush result is tested",
-				"the wrapped writer is "+kind+": an error of the unchecked binary.Write calls in persistFieldsSection would be lost", props, []string{witness})
+		case *ssa.Call:
+			if f := a.Call.StaticCallee(); f != nil && strings.HasPrefix(f.String(), "bufio.NewWriter") {
+				kind = "bufio.Writer"
+				// Flush on this writer must exist in the creator and be tested: R6 decides
+				// "Flush tested on every success path"; here we require that R6 had a Flush role.
+				flushed := false
+				for _, cs2 := range callSites(fn) {
+					if isCallTo(cs2, "(*bufio.Writer).Flush") && sameValue(recvOrArg0(cs2), a) && !droppedError(cs2) {
+						flushed = true
+					}
+				}
+				if !flushed {
+					kind = "bufio.Writer-unflushed"
+				}
+			}
+		case *ssa.Parameter:
+			kind = "parameter " + a.Name()
 		}
+		if isNamed(arg.Type(), "bytes", "Buffer") {
+			kind = "bytes.Buffer"
+		}
+		witness := "construction: " + describeInstr(c.p, k.at)
+		okc := kind == "bytes.Buffer" || kind == "bufio.Writer"
+		c.add(statusOf(okc), fmt.Sprintf("sticky/%s/%s", funcShortName(fn), k.name), c.p.instrPos(k.at),
+			"a CountHashWriter that is handed on to the routines with unchecked binary.Write calls wraps a bytes.Buffer or a bufio.Writer whose Flush result is tested",
+			"the wrapped writer is "+kind+": an error of the unchecked binary.Write calls on the field table would be lost", props, []string{witness})
 	}
 	c.add(statusOf(nsites >= 2), "sticky/constructor-sites", "-", "CountHashWriter constructor sites on the build and merge paths are found (confirmed by hand: 2)", fmt.Sprintf("found %d", nsites), props, nil)
 }
@@ -372,17 +576,9 @@ func r7cSiblings(c *RuleCtx) {
 		}
 	}
 	// callers of the interface methods test the result
-	for _, fnName := range []string{"convert", "mergeToWriter"} {
-		var fn *ssa.Function
-		if fnName == "convert" {
-			fn = c.method("interim", "convert")
-		} else {
-			fn = c.fn(fnName)
-		}
-		if fn == nil {
-			continue
-		}
-		n := 0
+	total := map[string]int{}
+	for _, fn := range c.p.ZapFuncs {
+		perFn := map[string]int{}
 		for _, cs := range callSites(fn) {
 			cc := cs.Common()
 			if !cc.IsInvoke() || !isNamed(cc.Value.Type(), zapPkgPath, "section") {
@@ -391,8 +587,12 @@ func r7cSiblings(c *RuleCtx) {
 			if cc.Method.Name() != "Persist" && cc.Method.Name() != "Merge" {
 				continue
 			}
-			n++
+			total[cc.Method.Name()]++
+			perFn[cc.Method.Name()]++
 			key := "siblings/caller/" + funcShortName(fn) + "/" + cc.Method.Name()
+			if perFn[cc.Method.Name()] > 1 {
+				key += fmt.Sprintf("#%d", perFn[cc.Method.Name()])
+			}
 			ev := errValueOfCall(cs)
 			okc := !droppedError(cs) && ev != nil
 			if okc {
@@ -407,6 +607,8 @@ func r7cSiblings(c *RuleCtx) {
 			}
 			c.add(statusOf(okc), key, c.pos(cs), "the caller of section."+cc.Method.Name()+" propagates its error", "the error of the interface call is not returned", props, nil)
 		}
-		c.add(statusOf(n >= 1), "siblings/caller/"+funcShortName(fn)+"/sites", c.fpos(fn), "interface call site found in "+fnName, "no section.Persist/Merge call found", props, nil)
+	}
+	for _, mn := range []string{"Persist", "Merge"} {
+		c.add(statusOf(total[mn] >= 1), "siblings/caller/"+mn+"/sites", "-", "an interface call site of section."+mn+" is found (confirmed by hand: 1, on the build / merge path)", "no section."+mn+" call found", props, nil)
 	}
 }
